@@ -24,7 +24,8 @@ def run():
     vlib.check_histories(chk, "RwTrace", "RwTrace.cfg", hist, "c04", batch=400)
     chk.cov["rule"] = ("2-10 read/readwrite accesses requested in a fixed order from async_rw_mutex<int>, started "
                        "by 1-4 OS threads at random times or dropped unstarted, held and released (read wrappers "
-                       "copied), mutex destroyed early in a third of the histories; every readwrite increments the "
+                       "copied), mutex destroyed early in a third of the histories, in others move-assigned part-way "
+                       "through the request sequence onto the (idle) mutex object of the previous history; every readwrite increments the "
                        "wrapped counter and every access logs the value it sees; delays injected at the rw.* hooks "
                        "(between head load and CAS, after done()'s exchange); validated by TLC against RwAbs "
                        "(grant order by groups, exclusion, version = number of earlier writers, owed grants at "
